@@ -80,10 +80,29 @@ def profile_ast(variants=True, max_nodes=10, lit=None):
     return st.lists(top_node(lit if lit is not None else literal(), variants), max_size=max_nodes)
 
 
+def _all_keywords():
+    kws = {"set", "dns_resolver"}
+    for specs in PL.BLOCKS.values():
+        kws.update(s[1] for s in specs)
+    kws.update(n for _k, n in PL.TRANSFORM_STEPS + PL.TERMINATIONS)
+    return sorted(kws)
+
+
+# commented-out statements: everything from '#' to the end of the line is a comment, however much it looks like profile
+# text - including the pseudo statement the library itself writes into generated profiles ('# dns_resolver "...";')
+_commented_out = st.tuples(
+    st.sampled_from(["#", "# ", " #", "#\t"]),
+    st.one_of(st.just("dns_resolver"), st.sampled_from(_all_keywords())),
+    st.sampled_from(['"8.8.8.8"', '"x"', '""', '"a" "b"', ""]),
+    st.sampled_from([";", " ;", ""]),
+    st.sampled_from(["", "", ' set dns_ttl "5";', " configured on the listener", " }", " {", ' header "a" "b"; print;', " # again", '"']),
+).map(lambda t: " " + t[0] + t[1] + " " + t[2] + t[3] + t[4] + "\n")
+
 whitespace = st.lists(
     st.one_of(
         st.sampled_from([" ", " ", "\n", "\t", "  ", "\n\n", " \n    "]),
         st.text(alphabet="abc {};\"'#set", max_size=12).map(lambda s: " # " + s + "\n"),
+        _commented_out,
     ),
     min_size=1,
     max_size=12,
